@@ -8,12 +8,19 @@ high_acc_swap against the extracted model on all order sequences over a 5-letter
 paths.  Oracle: the property's statement evaluated on the implementation's results by a
 brute-force enumeration of the declaratively valid sub-paths (written from the definition,
 not from the scan), time-reversal invariance, positivity, the doubling rule, the shape of
-the weight vector and the interval law of the segment choice.
+the weight vector and the interval law of the segment choice (also on paths built to hold
+several valid sub-paths of unequal lengths, over a fine grid of random numbers).
+
+Every call into the implementation goes through `call` / `Impl`: an exception, None, a value
+of the wrong shape, a sub-path that is not one of the valid sub-paths ... is an ANSWER of the
+implementation.  It is judged by the oracle and reported together with the input; it is never
+an exception of this check.
 """
 import importlib.util  # noqa: F401
 import itertools
 import logging
 import math
+import numbers
 from fractions import Fraction
 
 import common
@@ -22,8 +29,8 @@ META = {
     "id": "C10",
     "level": "proof",
     "technique": "Coq: literal five-branch scan proved equal to an independent structurally recursive specification and to the declarative definition of valid sub-paths (simulation with loop invariant), corollaries by NoDup/Permutation; exhaustive small-scope lock-step of the extracted model (and extracted spec) vs the real tis.py functions",
-    "text": "Unbounded theorems (every order sequence, every left/right pair incl. left = right and left > right, every move assignment, every random number): the scan returns exactly the valid sub-paths (entry, exit, interior count) in order; weight = number of frames strictly inside valid sub-paths, positive iff such a frame exists, 0 for an empty region, invariant under time reversal (mirrored segments); compute_weight doubles exactly when the ends are on different outer sides and the move is wf/ss; calc_cv_vector has one entry per interface, last 0, 1/0 by lambda_k <= max for non-wf columns, (1,)/(0,) for [0-]; segment k is chosen iff c_{k-1}/n < u <= c_k/n (interval length len_k/n), the choice is a valid sub-path and the seed consists of frames entry..exit inclusive; p_swap = c1n*c2n/(c1o*c2o) (1 if a denominator is 0). The model is tied to /repo by running model, extracted spec and the real functions on the same inputs and by evaluating the statement on the implementation's outputs.",
-    "note": "All theorems print 'Closed under the global context' (no axioms). Trusted: Coq kernel; extraction (ExtrOcamlBasic) + ocaml/util.ml + ocaml/c10_driver.ml (the 'has' command composes four compute_weight calls in the driver); the Python harness, its generators and its brute-force oracle. Floats: exhaustive cases use integer-valued orders; random real-valued cases are passed to the model as exact dyadic rationals scaled to integers; the float quotient sum_frames/n_frames (and c1n*c2n/(c1o*c2o)) is compared with the model's exact rational only at float neighbours of a boundary or at exactly representable boundaries, other exact-boundary values are counted as float_boundary_skipped. The uniform law of rgen.random() is assumed (the theorem gives the interval, hence probability len_k/n). Sub-path extraction assumes len(path) <= maxlen (Path.append refuses beyond maxlen).",
+    "text": "Unbounded theorems (every order sequence, every left/right pair incl. left = right and left > right, every move assignment, every random number): the scan returns exactly the valid sub-paths (entry, exit, interior count) in order; weight = number of frames strictly inside valid sub-paths, positive iff such a frame exists, 0 for an empty region, invariant under time reversal (mirrored segments); compute_weight doubles exactly when the ends are on different outer sides and the move is wf/ss; calc_cv_vector has one entry per interface, last 0, 1/0 by lambda_k <= max for non-wf columns, (1,)/(0,) for [0-]; segment k is chosen iff c_{k-1}/n < u <= c_k/n (interval length len_k/n), the choice is a valid sub-path and the seed consists of frames entry..exit inclusive; p_swap = c1n*c2n/(c1o*c2o) (1 if a denominator is 0). The model is tied to /repo by running model, extracted spec and the real functions on the same inputs and by evaluating the statement on the implementation's outputs. The proportional-pick clause is additionally judged on paths holding >= 2 valid sub-paths of unequal frame counts (all such sequences of the small scope, systematic count pairs/triples, seeded random ones with decoys) over a fine grid of random numbers: multiples of 1/64, every boundary c_k/n with its float neighbours, interval midpoints, the boundaries j/m of a count-blind draw. Any answer of the implementation (exception, None, wrong shape, a sub-path that is not a valid one, frames that are not the path's) is judged by the oracle and reported with the input (path, left/right, random number); it never stops the check.",
+    "note": "All theorems print 'Closed under the global context' (no axioms). Trusted: Coq kernel; extraction (ExtrOcamlBasic) + ocaml/util.ml + ocaml/c10_driver.ml (the 'has' command composes four compute_weight calls in the driver); the Python harness, its generators and its brute-force oracle. Floats: exhaustive cases use integer-valued orders; random real-valued cases are passed to the model as exact dyadic rationals scaled to integers; the float quotient sum_frames/n_frames (and c1n*c2n/(c1o*c2o)) is compared with the model's exact rational only at float neighbours of a boundary or at exactly representable boundaries, other exact-boundary values are counted as float_boundary_skipped. The uniform law of rgen.random() is assumed (the theorem gives the interval, hence probability len_k/n). Sub-path extraction assumes len(path) <= maxlen (Path.append refuses beyond maxlen). Random numbers outside [0,1) (1.0, 1.5, the float above 1) are only compared with the model (its interval law is proved for every u): an exception of the implementation there is a correspondence report without failing input, inside [0,1) it is a failure of the statement with the input. Reports: at most 3 per kind of case, concrete failing inputs first.",
     "design_ref": "4/C10",
 }
 LEVEL = "proof"
@@ -117,9 +124,44 @@ def segs_str(segs):
     return ",".join(f"{s}:{e}:{n}" for s, e, n in segs) if segs else "-"
 
 
+class Raised:
+    """The implementation raised instead of answering."""
+
+    def __init__(self, e):
+        self.kind = type(e).__name__
+        self.text = f"{self.kind}({str(e)[:120]!r})"
+        self.expected = isinstance(e, EXC)      # the kinds the code uses for undefined inputs
+
+    def __repr__(self):
+        return f"raised {self.text}"
+
+
+def call(fn, *a, **k):
+    """Run the implementation; whatever it does comes back as a value."""
+    try:
+        return fn(*a, **k)
+    except Exception as e:  # noqa: BLE001  (any behaviour of the code under test is an answer)
+        return Raised(e)
+
+
+def short(x, n=120):
+    try:
+        r = repr(x)
+    except Exception:  # noqa: BLE001
+        r = f"<unprintable {type(x).__name__}>"
+    return r if len(r) <= n else r[:n] + "..."
+
+
+def is_num(x):
+    return isinstance(x, numbers.Real) and math.isfinite(x)
+
+
 def num_str(x):
-    f = float(x)
-    return str(int(f)) if f.is_integer() else repr(f)
+    """one protocol token (no blanks) for any value the implementation may hand back."""
+    if is_num(x):
+        f = float(x)
+        return str(int(f)) if f.is_integer() else repr(f)
+    return "?" + "_".join(short(x, 40).split())
 
 
 class Rgen:
@@ -170,37 +212,47 @@ class Impl:
             p.phasepoints = [self.frame(0, o) for o in orders]
         return p
 
+    @staticmethod
+    def _weight_and_seg(r):
+        """-> (weight, frames of the returned path, path, problem); problem: text describing an
+        answer outside the domain (weight, path) of wirefence_weight_and_pick, else None."""
+        if isinstance(r, Raised):
+            return None, None, None, f"wirefence_weight_and_pick {r!r}"
+        if not (isinstance(r, tuple) and len(r) == 2):
+            return None, None, None, f"wirefence_weight_and_pick returned {short(r)} instead of (weight, path)"
+        w, seg = r
+        if not is_num(w):
+            return None, None, None, f"wirefence_weight_and_pick returned the weight {short(w)}, not a number"
+        pp = getattr(seg, "phasepoints", None)
+        if not isinstance(pp, (list, tuple)):
+            return w, None, seg, f"wirefence_weight_and_pick returned {short(seg)} as sub-path, not a path"
+        return w, list(pp), seg, None
+
     def weight(self, p, left, right):
-        w, seg = self.tis.wirefence_weight_and_pick(p, left, right)
-        return w, seg
+        """-> (weight, frames of the returned path, path, problem)"""
+        return self._weight_and_seg(call(self.tis.wirefence_weight_and_pick, p, left, right))
 
     def pick(self, p, left, right, u):
-        """-> (n_frames, (s, e) or None, orders of the seed frames, seed path)"""
+        """-> (n_frames, frame indices of the seed or None, orders of the seed frames, seed path, problem)"""
         idx = {id(s): i for i, s in enumerate(p.phasepoints)}
-        w, seg = self.tis.wirefence_weight_and_pick(p, left, right, return_seg=True, ens_set={"rgen": Rgen(u)})
-        ii = [idx.get(id(s), -1) for s in seg.phasepoints]
-        if not ii:
-            return w, None, [], seg
-        return w, ii, [s.order[0] for s in seg.phasepoints], seg
+        r = call(self.tis.wirefence_weight_and_pick, p, left, right, return_seg=True, ens_set={"rgen": Rgen(u)})
+        w, pp, seg, prob = self._weight_and_seg(r)
+        if prob:
+            return w, None, [], seg, prob
+        if not pp:
+            return w, None, [], seg, None
+        ii = [idx.get(id(s), -1) for s in pp]            # -1: not a frame of the path
+        return w, ii, [call(lambda s=s: s.order[0]) for s in pp], seg, None
 
     def compute_weight(self, p, intfs, mv):
-        try:
-            return self.tis.compute_weight(p, list(intfs), mv)
-        except EXC:
-            return None
+        """-> number, or Raised (undefined), or whatever else the code returns"""
+        return call(self.tis.compute_weight, p, list(intfs), mv)
 
     def cv(self, p, intfs, moves, lm1, cap, minus):
-        try:
-            return self.tis.calc_cv_vector(p, list(intfs), list(moves), lambda_minus_one=lm1, cap=cap, minus=minus)
-        except EXC:
-            return None
+        return call(self.tis.calc_cv_vector, p, list(intfs), list(moves), lambda_minus_one=lm1, cap=cap, minus=minus)
 
     def has(self, pa, pb, intf0, intf1, moves, rand):
-        try:
-            acc, status = self.tis.high_acc_swap([pa, pb], Rgen(rand), list(intf0), list(intf1), list(moves))
-        except EXC:
-            return None
-        return bool(acc), status
+        return call(self.tis.high_acc_swap, [pa, pb], Rgen(rand), list(intf0), list(intf1), list(moves))
 
 
 class Batch:
@@ -214,6 +266,7 @@ class Batch:
         self.disagree = 0
         self.oracle_fail = 0
         self.samples = {}
+        self.fail_by_op = {}
 
     def add(self, req, impl_out, err, desc, cmp=None, nontrivial=True):
         self.reqs.append(req)
@@ -232,7 +285,10 @@ class Batch:
                 self.samples[desc["op"]] = {"request": req, "model": mo, "impl": io}
             if err:
                 self.oracle_fail += 1
-                if self.oracle_fail <= 5:
+                # at most 3 reports per kind of case (so that a later, more telling kind of case
+                # is not crowded out by an earlier one), 15 in all
+                k = self.fail_by_op[desc["op"]] = self.fail_by_op.get(desc["op"], 0) + 1
+                if k <= 3 and sum(min(v, 3) for v in self.fail_by_op.values()) <= 15:
                     self.ctx.violation(f"C10 statement fails on the implementation: {err}",
                                        {"case": desc, "impl": io, "model": mo, "request": req}, True)
                 continue
@@ -241,7 +297,7 @@ class Batch:
                 self.disagree += 1
                 if self.disagree <= 3:
                     self.ctx.violation(
-                        f"correspondence model/implementation broken for {desc['op']}: {bad} (the property oracle accepts the implementation's output on this case)",
+                        f"correspondence model/implementation broken for {desc['op']}: {bad} (the property oracle does not reject the implementation's output on this case)",
                         {"correspondence": "c10 runner vs infretis.core.tis", "case": desc, "impl": io, "model": mo, "request": req}, False)
         self.reqs, self.meta = [], []
 
@@ -266,30 +322,35 @@ def cmp_wf(mo, io):
 
 def wf_case(B, I, p, orders, left, right, ints=None, tag="wf"):
     """weight of one path: implementation vs model/spec, plus the statement's oracle."""
-    w, seg = I.weight(p, left, right)
+    original = p.phasepoints
+    w, pp, _seg, prob = I.weight(p, left, right)
     osegs = oracle_segments(orders, left, right)
     frames = set()
     for s, e, _ in osegs:
         frames.update(range(s + 1, e))
     err = None
-    if w != len(frames):
-        err = f"weight {w} != number of frames on valid sub-paths {len(frames)} (sub-paths {osegs})"
+    if prob:
+        err = f"{prob}; the weight is the number of frames on valid sub-paths = {len(frames)} (sub-paths {osegs})"
+    elif w != len(frames):
+        err = f"weight {short(w)} != number of frames on valid sub-paths {len(frames)} (sub-paths {osegs})"
     elif (w > 0) != bool(frames):
         err = "weight positive without / zero despite a frame on a valid sub-path"
-    elif seg.length != 0:
+    elif len(pp) != 0:
         err = "a segment was returned although none was requested"
     else:
-        p.phasepoints = p.phasepoints[::-1]
-        wr, _ = I.weight(p, left, right)
-        p.phasepoints = p.phasepoints[::-1]
-        if wr != w:
-            err = f"weight changes under time reversal: {w} forward, {wr} reversed"
+        p.phasepoints = list(original)[::-1]
+        wr, _pp, _s, prob_r = I.weight(p, left, right)
+        if prob_r:
+            err = f"time-reversed path: {prob_r}; forward weight {w}"
+        elif wr != w:
+            err = f"weight changes under time reversal: {w} forward, {short(wr)} reversed"
+    p.phasepoints = original
     if ints is None:
         l_i, r_i, o_i = left, right, orders
     else:
         l_i, r_i, o_i = ints
     # non-trivial: some frame lies inside [left, right), so the scan can leave its initial state
-    B.add(f"wf {l_i} {r_i} {enc(o_i)}", f"{segs_str(osegs)} {w}", err,
+    B.add(f"wf {l_i} {r_i} {enc(o_i)}", f"{segs_str(osegs)} {num_str(w)}", err,
           {"op": tag, "orders": list(orders), "left": left, "right": right}, cmp_wf,
           nontrivial=any(left <= x < right for x in orders))
     return w, osegs
@@ -314,6 +375,68 @@ def u_grid(osegs, rng, ctx):
     return sorted(set(us))
 
 
+def fine_u_grid(osegs, rng, ctx):
+    """Fine grid for the proportional-pick law on a path with several valid sub-paths:
+    u_grid (every cumulative boundary c_k/n itself when representable + its float neighbours,
+    0, values >= 1) + all multiples of 1/64 in [0, 1) + the midpoint of every selecting
+    interval + the boundaries j/m (m = number of sub-paths) of a draw that ignores the frame
+    counts, with their float neighbours + seeded random values."""
+    n = sum(s[2] for s in osegs)
+    m = len(osegs)
+    us = set(u_grid(osegs, rng, ctx))
+    us.update(k / 64.0 for k in range(64))
+    c = 0
+    for s in osegs:
+        us.add((2 * c + s[2]) / (2.0 * n))
+        c += s[2]
+    for j in range(1, m):
+        b = j / m
+        us.update((math.nextafter(b, -math.inf), b, math.nextafter(b, math.inf)))
+    us.update(rng.getrandbits(40) / 2.0 ** 40 for _ in range(4))
+    return sorted(us)
+
+
+def unequal_lengths(osegs):
+    return len({s[2] for s in osegs}) >= 2
+
+
+def built_unequal_paths(rng, nrandom):
+    """Order sequences over ALPHA for (left, right) = (1, 3) holding >= 2 valid sub-paths of
+    UNEQUAL frame counts: systematic (all ordered pairs of counts 1..6, all triples of counts
+    1..4, in the entry/exit patterns L-L-L.., L-R-L.., R-L-L..) and seeded random ones with
+    invalid right-right decoys, jumps over the region and filler frames in between.  Every
+    sequence is filtered by the declarative oracle, not trusted by construction."""
+    out = []
+
+    def build(counts, ends):
+        seq = [ends[0]]
+        for c, e in zip(counts, ends[1:]):
+            seq += [2] * c + [e]
+        return tuple(seq)
+
+    lens = [c for k in (2, 3) for c in itertools.product(range(1, 7 if k == 2 else 5), repeat=k) if len(set(c)) > 1]
+    for c in lens:
+        k = len(c)
+        out.append(build(c, [0] * (k + 1)))                                   # left-left ...
+        out.append(build(c, [0, 4, 0, 0][:k + 1]))                            # left-right, right-left ...
+        out.append(build(c, [3, 0, 0, 4][:k + 1]))                            # right-left, left-left ...
+    for _ in range(nrandom):
+        seq = [rng.choice((0, 0, 3, 4))]
+        for _k in range(rng.randrange(2, 7)):
+            t = rng.random()
+            if t < 0.15:                                                        # filler outside frames / jump over
+                seq += [rng.choice((0, 3, 4)) for _j in range(rng.randrange(1, 3))]
+            inner = [rng.choice((1, 2, 2)) for _j in range(rng.randrange(1, 9))]
+            seq += inner + [rng.choice((0, 0, 3, 4))]
+        out.append(tuple(seq))
+    seen, res = set(), []
+    for seq in out:
+        if seq not in seen and unequal_lengths(oracle_segments(seq, 1, 3)):
+            seen.add(seq)
+            res.append(seq)
+    return res
+
+
 def float_decision_differs(osegs, u):
     """True iff for some cumulative boundary the float test `c / n >= u` of the code and the
     exact test c/n >= u disagree (u within rounding error of a non-representable boundary)."""
@@ -333,45 +456,60 @@ def pick_case(B, I, orders, left, right, u, ints=None, tag="pick"):
         B.ctx.dist("float_boundary_skipped")
         return
     p = I.path(orders, unique=True, cache=(ints is None))
-    w, ii, seed_orders, seg = I.pick(p, left, right, u)
+    w, ii, seed_orders, seg, prob = I.pick(p, left, right, u)
     fu = Fraction(*float(u).as_integer_ratio())
+    k = oracle_pick(osegs, fu)                       # what the statement's interval law selects
+    law = None if k is None else osegs[k]
+    nfr = sum(x[2] for x in osegs)
     err = None
     io = "N"
-    if ii is None:
-        k = oracle_pick(osegs, fu)
+    if prob:
+        # an exception / a value that is not (weight, path): a finding about the implementation.
+        # For a possible random number (0 <= u < 1) it is judged by the statement; outside that
+        # range only the lock-step with the model (proved for every u) is at stake.
+        io = "?" + "_".join(prob.split())[:80]
+        if 0.0 <= u < 1.0:
+            err = f"u={u!r}: {prob}, but the interval law c_(k-1)/n < u <= c_k/n selects {law}"
+    elif w != nfr:
+        err = f"u={u!r}: weight {short(w)} returned with the seed != number of frames on valid sub-paths {nfr} (sub-paths {osegs})"
+    elif ii is None:
         if k is not None:
-            err = f"no seed sub-path returned for u={u!r} although the interval law selects sub-path {k}"
+            err = f"u={u!r}: no seed sub-path returned but the interval law c_(k-1)/n < u <= c_k/n selects {law}"
     else:
         s, e = ii[0], ii[-1]
         if ii != list(range(s, e + 1)) or s < 0:
-            err = f"seed frames {ii} are not the contiguous frames entry..exit of the path"
+            err = f"u={u!r}: seed frames {short(ii)} are not the contiguous frames entry..exit of a sub-path of the path (-1 = not a frame of the path); the interval law c_(k-1)/n < u <= c_k/n selects {law}"
         elif (s, e, e - s - 1) not in osegs:
-            err = f"seed sub-path ({s},{e}) is not a valid sub-path {osegs}"
-        else:
-            k = oracle_pick(osegs, fu)
-            if k is None or osegs[k] != (s, e, e - s - 1):
-                err = f"u={u!r}: chosen sub-path ({s},{e}) but the interval law c_(k-1)/n < u <= c_k/n selects {None if k is None else osegs[k]}"
-            elif seg.generated != "ct":
-                err = "seed sub-path not marked generated='ct'"
+            err = f"u={u!r}: seed sub-path ({s},{e}) is not a valid sub-path {osegs}; the interval law c_(k-1)/n < u <= c_k/n selects {law}"
+        elif law != (s, e, e - s - 1):
+            err = f"u={u!r}: chosen sub-path ({s},{e}) but the interval law c_(k-1)/n < u <= c_k/n selects {law} (valid sub-paths (entry, exit, frames) {osegs}, n={nfr})"
+        elif getattr(seg, "generated", None) != "ct":
+            err = "seed sub-path not marked generated='ct'"
+        elif any(not is_num(x) or x != orders[j] for x, j in zip(seed_orders, ii)):
+            err = f"u={u!r}: the seed's frames carry the orders {short(seed_orders)}, the path's frames {s}..{e} carry {short(list(orders[s:e + 1]))}"
     if ints is None:
         l_i, r_i, o_i = left, right, list(orders)
-        if ii is not None:
-            io = f"{ii[0]}:{ii[-1]}:{ii[-1] - ii[0] - 1} {enc([int(x) for x in seed_orders])}"
     else:
         l_i, r_i, o_i = ints
-        if ii is not None:
-            io = f"{ii[0]}:{ii[-1]}:{ii[-1] - ii[0] - 1} {enc([o_i[j] for j in ii])}"
+    if ii is not None and not prob:
+        if all(isinstance(j, int) and 0 <= j < len(o_i) for j in ii):
+            io =f"{ii[0]}:{ii[-1]}:{ii[-1] - ii[0] - 1} {enc([o_i[j] for j in ii])}"
+        else:
+            io = "?" + "_".join(short(ii, 80).split())
+    note = "" if 0.0 <= u < 1.0 else f" (u={u!r} is not a possible value of rgen.random(); the model's interval law is proved for every u)"
     B.add(f"pick {l_i} {r_i} {enc(o_i)} {fu.numerator}/{fu.denominator}", io, err,
-          {"op": tag, "orders": list(orders), "left": left, "right": right, "u": u})
+          {"op": tag, "orders": list(orders), "left": left, "right": right, "u": u},
+          lambda mo, io_: None if mo == io_ else f"model '{mo}' vs implementation '{io_}'{note}")
 
 
 def cw_case(B, I, p, orders, trip, mv, ints=None, tag="compute_weight"):
     r = I.compute_weight(p, [float(t) for t in trip], mv)
     exp = oracle_compute_weight(orders, trip[0], trip[1], trip[2], mv)
     err = None
-    if (r is None) != (exp is None) or (r is not None and r != exp):
-        err = f"compute_weight = {r}, statement gives {exp} (base weight x2 iff ends on different outer sides and move in ss/wf)"
-    io = "N" if r is None else num_str(r)
+    undefined = isinstance(r, Raised)          # any exception = no weight for this input
+    if undefined != (exp is None) or (not undefined and not (is_num(r) and r == exp)):
+        err = f"compute_weight {'' if undefined else '= '}{short(r)}, statement gives {exp} (base weight x2 iff ends on different outer sides and move in ss/wf)"
+    io = "N" if undefined else num_str(r)
     if ints is None:
         t_i, o_i = trip, orders
     else:
@@ -410,12 +548,21 @@ def cv_case(B, I, p, orders, intfs, moves, lm1, cap, minus, ints=None):
              (None if cap is None else float(cap)), minus)
     exp = oracle_cv(orders, intfs, moves, lm1, cap, minus)
     err = None
-    got = None if r is None else [float(x) for x in r]
-    if (got is None) != (exp is None) or (got is not None and got != [float(x) for x in exp]):
-        err = f"calc_cv_vector = {r}, statement gives {exp}"
-    elif r is not None and not isinstance(r, tuple):
-        err = "weight vector is not a tuple"
-    io = "N" if r is None else enc([num_str(x) for x in r])
+    undefined = isinstance(r, Raised)          # any exception = no weight vector for this input
+    wellformed = isinstance(r, (tuple, list)) and all(is_num(x) for x in r)
+    if undefined:
+        io = "N"
+        if exp is not None:
+            err = f"calc_cv_vector {short(r)}, statement gives {exp}"
+    elif not wellformed:
+        io = "?" + "_".join(short(r, 60).split())
+        err = f"calc_cv_vector = {short(r)} is not a tuple of numbers, statement gives {exp}"
+    else:
+        io = enc([num_str(x) for x in r])
+        if exp is None or [float(x) for x in r] != [float(x) for x in exp]:
+            err = f"calc_cv_vector = {short(r)}, statement gives {exp}"
+        elif not isinstance(r, tuple):
+            err = "weight vector is not a tuple"
     if ints is None:
         o_i, f_i, lm_i, cap_i = orders, intfs, lm1, cap
     else:
@@ -432,9 +579,14 @@ def has_case(B, I, ctx, oa, ob, intf0, intf1, mvs, rand):
           oracle_compute_weight(ob, *intf0, mvs[0]), oracle_compute_weight(oa, *intf1, mvs[1])]
     err = None
     fr = Fraction(*float(rand).as_integer_ratio())
-    if None in ws:
-        if r is not None:
-            err = f"high_acc_swap returned {r} although a weight is undefined"
+    undefined = isinstance(r, Raised)          # any exception = no decision for this input
+    wellformed = isinstance(r, tuple) and len(r) == 2 and (isinstance(r[0], bool) or is_num(r[0]))
+    if not undefined and not wellformed:
+        io = "?" + "_".join(short(r, 60).split())
+        err = f"high_acc_swap = {short(r)} is not (accepted, status); weights {ws}"
+    elif None in ws:
+        if not undefined:
+            err = f"high_acc_swap returned {short(r)} although a weight is undefined"
         io = "N"
     else:
         ratio = Fraction(1) if ws[0] == 0 or ws[1] == 0 else Fraction(ws[2] * ws[3], ws[0] * ws[1])
@@ -443,13 +595,14 @@ def has_case(B, I, ctx, oa, ob, intf0, intf1, mvs, rand):
         if (rand < pf) != exp:      # rand within rounding error of a non-representable ratio
             ctx.dist("float_boundary_skipped")
             return
-        if r is None:
-            err = "high_acc_swap raised although all four weights are defined"
+        if undefined:
+            err = f"high_acc_swap {short(r)} although all four weights are defined: {ws}"
             io = "N"
         else:
-            io = f"{int(r[0])} {ratio.numerator}/{ratio.denominator}" if ratio.denominator != 1 else f"{int(r[0])} {ratio.numerator}"
-            if r[0] != exp or r[1] != ("ACC" if exp else "HAS"):
-                err = f"high_acc_swap = {r} for rand={rand!r}, weights {ws}: statement gives accept={exp} (p = {ratio})"
+            acc = int(bool(r[0]))
+            io = f"{acc} {ratio.numerator}/{ratio.denominator}" if ratio.denominator != 1 else f"{acc} {ratio.numerator}"
+            if bool(r[0]) != exp or r[1] != ("ACC" if exp else "HAS"):
+                err = f"high_acc_swap = {short(r)} for rand={rand!r}, weights {ws}: statement gives accept={exp} (p = {ratio})"
     B.add(f"has {fr.numerator}/{fr.denominator} {enc(oa)} {enc(ob)} {enc(intf0)} {enc(intf1)} {mvs[0]} {mvs[1]}",
           io, err, {"op": "high_acc_swap", "path0": list(oa), "path1": list(ob), "intf0": list(intf0), "intf1": list(intf1),
                     "moves": list(mvs), "rand": rand},
@@ -514,6 +667,27 @@ def run(ctx):
                     pick_case(B, I, seq, left, right, u)
                     npick += 1
     ctx.dist("pick_exhaustive", npick)
+    B.flush()
+
+    # ---------------- 2b. proportional pick on paths with >= 2 valid sub-paths of UNEQUAL frame
+    # counts, fine grid of random numbers incl. every interval boundary c_k/n
+    nuneq_paths = nuneq = 0
+    uneq_shapes = set()
+    Luneq = 6 if quick else 7
+    uneq = [(seq, 1, 3) for L in range(5, Luneq + 1) for seq in itertools.product(ALPHA, repeat=L)
+            if unequal_lengths(oracle_segments(seq, 1, 3))]
+    uneq += [(seq, 1, 4) for seq in itertools.product(ALPHA, repeat=6) if unequal_lengths(oracle_segments(seq, 1, 4))]
+    uneq += [(seq, 1, 3) for seq in built_unequal_paths(rng, 150 if quick else 1500)]
+    for seq, left, right in uneq:
+        osegs = oracle_segments(seq, left, right)
+        nuneq_paths += 1
+        uneq_shapes.add(tuple(s[2] for s in osegs))
+        for u in fine_u_grid(osegs, rng, ctx):
+            pick_case(B, I, seq, left, right, u, tag="pick_unequal_lengths")
+            nuneq += 1
+    ctx.dist("pick_unequal_lengths_paths", nuneq_paths)
+    ctx.dist("pick_unequal_lengths_count_vectors", len(uneq_shapes))
+    ctx.dist("pick_unequal_lengths", nuneq)
     B.flush()
 
     # ---------------- 3. compute_weight: all sequences x interface triples x moves
@@ -628,11 +802,21 @@ def run(ctx):
 
     for op in sorted(B.samples):
         ctx.sample(B.samples[op], cap=10)
+    # concrete failing inputs first (finish() prints the first 20 reports in this order)
+    # and among those the ones whose random number is a possible value of rgen.random()
+    def _rank(v):
+        case = v[1].get("case", {}) if isinstance(v[1], dict) else {}
+        u = case.get("u", 0.0) if isinstance(case, dict) else 0.0
+        return (not v[2], not (0.0 <= u < 1.0))
+    ctx.violations.sort(key=_rank)
     ctx.cov["rule"] = (
         f"exhaustive: all order sequences over alphabet {ALPHA} up to length {Lmain[(1, 3)]} for (left,right) in {main_pairs[:1]}, "
         f"up to {Lmain[(2, 2)]} for {main_pairs[1:]} (left = right, left > right), up to {Lextra} for {extra_pairs} "
         f"(weight vs model/spec/brute-force declarative oracle, reversal, positivity); segment choice on all sequences up to length {Lpick} "
-        f"with a u grid containing every cumulative boundary's float neighbours; compute_weight on all sequences up to length {Lcw} x {len(trips)} "
+        f"with a u grid containing every cumulative boundary's float neighbours; proportional pick on {nuneq_paths} paths holding >= 2 valid "
+        f"sub-paths of unequal frame counts ({len(uneq_shapes)} distinct count vectors: all such sequences up to length {Luneq}, systematic count "
+        f"pairs 1..6 / triples 1..4 in three entry/exit patterns, seeded random ones with decoys) x fine u grid (multiples of 1/64, every c_k/n "
+        f"with float neighbours, interval midpoints, j/m with neighbours, random); compute_weight on all sequences up to length {Lcw} x {len(trips)} "
         f"interface triples x 3 moves; calc_cv_vector on all sequences up to length {Lcv} (+ random longer) x {len(intf_lists)} interface lists "
         f"(2-5 interfaces) x all move assignments x caps x lambda_minus_one x minus; {ntrials} seeded high_acc_swap set-ups x rand grid; "
         f"{nrand} seeded random real-valued paths (length < {60 if quick else 120}). A case is distinct by its request line; a weight case "
@@ -665,16 +849,17 @@ def replay(doc):
         return 1
     I = Impl()
 
-    class Sink:
-        def __init__(self):
-            self.items = []
-
-        def add(self, req, io, err, desc, cmp=None):
-            self.items.append((req, io, err, cmp))
-
     class FakeCtx:
         def dist(self, *a, **k):
             pass
+
+    class Sink:
+        def __init__(self):
+            self.items = []
+            self.ctx = FakeCtx()
+
+        def add(self, req, io, err, desc, cmp=None, nontrivial=True):
+            self.items.append((req, io, err, cmp))
 
     S = Sink()
     op = case["op"]
@@ -699,6 +884,9 @@ def replay(doc):
     else:
         print("unknown case kind", op)
         return 1
+    if not S.items:
+        print("case not evaluated: the random number lies within float rounding error of a non-representable boundary")
+        return 0
     req, io, err, cmp = S.items[0]
     print("request         :", req)
     print("implementation  :", io)
